@@ -34,6 +34,14 @@
 //	                                               controller re-subscribes at once after a dropped subscription only if its registration back-off
 //	                                               token — one per second — is unspent: what happens after a failed Mesos call depends on how long
 //	                                               the core has been connected.)
+//	       | (upd K J STATE OMIT SRC)              the master sends the core ONE status update about the task launched for role J of environment K
+//	                                               (the latest launch that has not ended and is in the core's roster; else nothing is sent):
+//	                                               STATE := RUNNING | STARTING (a state updateTaskStatus has no case for), OMIT := none|exec|agent|both
+//	                                               = which of the OPTIONAL fields executor_id / agent_id the update lacks (updates of the AliECS
+//	                                               executor carry both, an update built by the master need not), SRC := recon (a reconciliation
+//	                                               answer the master volunteers: SOURCE_MASTER, REASON_RECONCILIATION, no UUID) | plain (an ordinary
+//	                                               update it relays: SOURCE_EXECUTOR, UUID). Returns when the core has handled it (positive evidence:
+//	                                               the task event updateTaskStatus publishes last). Not in the round that creates K.
 //	EV    := START | STOP | CONFIGURE | RESET
 //
 // Host h1,h2 belong to detector ITS, h3 to TPC, h4 to TST. Environment K is
@@ -67,6 +75,7 @@ package ownh
 
 import (
 	"context"
+	"encoding/json"
 	"fmt"
 	"os"
 	"os/exec"
@@ -126,8 +135,11 @@ type Op struct {
 	Force bool
 	Allow bool
 	Keep  bool
-	J     int  // xfail / afail: role index
+	J     int  // xfail / afail / upd: role index
 	Upd   bool // xfail / afail: with the terminal status updates
+	State string         // upd: RUNNING | STARTING
+	Omit  sim.StatusOmit // upd: the optional fields the update lacks
+	Recon bool           // upd: sent as a reconciliation answer (else as an ordinary update)
 }
 
 type Scenario struct {
@@ -202,6 +214,19 @@ func Parse(input string) (*Scenario, error) {
 					return nil, fmt.Errorf("bad op %s", o)
 				}
 				op.K, op.J, op.Upd = o.At(1).Int(), o.At(2).Int(), o.At(3).Bool()
+				if op.K >= 0 && op.K < len(sc.Envs) && (op.J < 0 || op.J >= len(sc.Envs[op.K].Roles) || sc.Envs[op.K].Roles[op.J].Kind == "P") {
+					return nil, fmt.Errorf("op %s names no task role", o)
+				}
+			case "upd":
+				if o.Len() != 6 {
+					return nil, fmt.Errorf("bad op %s", o)
+				}
+				op.K, op.J, op.State = o.At(1).Int(), o.At(2).Int(), o.At(3).Str()
+				om, ok := sim.ParseStatusOmit(o.At(4).Str())
+				if !ok || (op.State != "RUNNING" && op.State != "STARTING") || (o.At(5).Str() != "recon" && o.At(5).Str() != "plain") {
+					return nil, fmt.Errorf("bad op %s", o)
+				}
+				op.Omit, op.Recon = om, o.At(5).Str() == "recon"
 				if op.K >= 0 && op.K < len(sc.Envs) && (op.J < 0 || op.J >= len(sc.Envs[op.K].Roles) || sc.Envs[op.K].Roles[op.J].Kind == "P") {
 					return nil, fmt.Errorf("op %s names no task role", o)
 				}
@@ -761,6 +786,8 @@ func (r *runner) do(op Op) (*sx.Node, error) {
 		return sx.L(sx.A("ok")), nil
 	case "xfail", "afail":
 		return r.lose(op)
+	case "upd":
+		return r.statusUpd(op)
 	case "newd":
 		return r.newDuring(op)
 	}
@@ -964,6 +991,69 @@ func (r *runner) lose(op Op) (*sx.Node, error) {
 		res.Add(sx.I(k))
 	}
 	return res, nil
+}
+
+// taskEvents counts the task events the core has published for the task (updateTaskStatus ends with one, whatever the state).
+func (r *runner) taskEvents(taskID string) int {
+	n := 0
+	for _, e := range r.w.CoreEvents() {
+		if !strings.Contains(e.Type, "Ev_TaskEvent") {
+			continue
+		}
+		var p struct {
+			Taskid string `json:"taskid"`
+		}
+		if json.Unmarshal(e.Payload, &p) == nil && p.Taskid == taskID {
+			n++
+		}
+	}
+	return n
+}
+
+// statusUpd: the master sends one status update about the latest launch for role J of environment K that has not ended,
+// with or without the optional identity fields (see the package comment). Nothing is sent if there is no such task or
+// the core's roster does not hold it (an update about a task outside the roster is another story: dropped with a warning,
+// or — labelled as a reconciliation answer — answered with a KILL). The call returns when the core has handled the update:
+// updateTaskStatus publishes a task event as its last statement, after the fields of the task were written.
+func (r *runner) statusUpd(op Op) (*sx.Node, error) {
+	names := r.names()
+	var vic *sim.TaskRecord
+	for _, t := range r.w.Tasks() {
+		if n, ok := names[t.TaskID]; ok && n.k == op.K && n.j == op.J && !t.Terminal {
+			tt := t
+			vic = &tt
+		}
+	}
+	if vic == nil {
+		return sx.L(sx.A("ok")), nil
+	}
+	c, cancel := ctx()
+	defer cancel()
+	tr, err := r.w.Client().GetTasks(c, &pb.GetTasksRequest{})
+	if err != nil {
+		return nil, &sim.InfraError{What: fmt.Sprintf("op %+v: GetTasks", op), Err: err}
+	}
+	known := false
+	for _, t := range tr.GetTasks() {
+		known = known || t.GetTaskId() == vic.TaskID
+	}
+	if !known {
+		return sx.L(sx.A("ok")), nil
+	}
+	st := mesos.TASK_RUNNING
+	if op.State == "STARTING" {
+		st = mesos.TASK_STARTING
+	}
+	before := r.taskEvents(vic.TaskID)
+	if err := r.w.Master.InjectTaskStatus(vic.TaskID, st, op.Recon, op.Omit, "upd "+op.Omit.String()); err != nil {
+		return nil, &sim.InfraError{What: fmt.Sprintf("op %+v", op), Err: err}
+	}
+	if err := sim.Poll("the core has handled the status update (task event published)", Ceiling, func() (bool, error) {
+		return r.taskEvents(vic.TaskID) > before || !r.w.CoreAlive(), nil
+	}); err != nil {
+		return nil, err
+	}
+	return sx.L(sx.A("ok")), nil
 }
 
 // envTaskIDs: ids of the tasks launched with the label of environment k (master's table).
